@@ -73,7 +73,7 @@ pub fn run(wseed: u64, rt: &tokio::runtime::Runtime) {
                 let id = base + i;
                 match *op {
                     Op::Run { pends, fail, slow_drop } => {
-                        let mut f = svc.call(Req { id, pends, fail, slow_drop });
+                        let mut f = svc.call(Req { id, pends, fail, slow_drop, key: 0 });
                         let first = poll_once(f.as_mut());
                         if mode != 1 && first.is_pending() && sh.entered[id].load(SeqCst) == 0 {
                             violation("C07.reject_instant [os_threads]", format!("request {} neither admitted nor rejected by its first poll though max_wait_duration is zero", id));
@@ -107,7 +107,7 @@ pub fn run(wseed: u64, rt: &tokio::runtime::Runtime) {
                         }
                     }
                     Op::Cancel { polls, pends, slow_drop } => {
-                        let mut f = svc.call(Req { id, pends: pends + polls, fail: false, slow_drop });
+                        let mut f = svc.call(Req { id, pends: pends + polls, fail: false, slow_drop, key: 0 });
                         for _ in 0..polls {
                             if poll_once(f.as_mut()).is_ready() {
                                 break;
@@ -118,7 +118,7 @@ pub fn run(wseed: u64, rt: &tokio::runtime::Runtime) {
                         drop(f);
                     }
                     Op::DropUnpolled => {
-                        let f = svc.call(Req { id, pends: 0, fail: false, slow_drop: 0 });
+                        let f = svc.call(Req { id, pends: 0, fail: false, slow_drop: 0, key: 0 });
                         drop(f);
                     }
                 }
@@ -139,7 +139,7 @@ pub fn run(wseed: u64, rt: &tokio::runtime::Runtime) {
     let mut held = Vec::new();
     for k in 0..max {
         let id = nreq + k;
-        let mut f = svc.call(Req { id, pends: 1_000_000, fail: false, slow_drop: 0 });
+        let mut f = svc.call(Req { id, pends: 1_000_000, fail: false, slow_drop: 0, key: 0 });
         let _ = poll_once(f.as_mut());
         if sh.entered[id].load(SeqCst) != 1 {
             violation("C07.capacity_restored [os_threads]", format!("probe {} of {} not admitted at once with nothing in flight", k + 1, max));
@@ -148,7 +148,7 @@ pub fn run(wseed: u64, rt: &tokio::runtime::Runtime) {
     }
     if mode != 1 {
         let id = nreq + max;
-        let mut f = svc.call(Req { id, pends: 0, fail: false, slow_drop: 0 });
+        let mut f = svc.call(Req { id, pends: 0, fail: false, slow_drop: 0, key: 0 });
         match poll_once(f.as_mut()) {
             Poll::Ready(Err(e)) if e.is_bulkhead() => {}
             _ => violation("C07.reject_instant [os_threads]", "a caller over capacity with zero wait was not rejected at once".into()),
